@@ -288,7 +288,17 @@ def place_ghost_at_anchors(sf, ed, spec, lo, hi, used):
             raise ExtractError('%s: ghost anchor `%s` matches %d sites (anchor lost)' % (spec.path, key[1], len(hits)))
         h = hits[0]
         if key[0] == 'before':
-            ed.ins(st[h].start, '\n' + spec.sections[key] + '\n')
+            # start of the statement that contains the anchor: scan back to the previous `;` / `{` / `}` at the same depth
+            k = h - 1
+            while k >= lo:
+                tx = st[k].text
+                if tx in (')', ']'):
+                    k = m[k] - 1
+                    continue
+                if tx in (';', '{', '}'):
+                    break
+                k -= 1
+            ed.ins(st[k + 1].start, '\n' + spec.sections[key] + '\n')
         else:
             k = h
             while True:
